@@ -245,4 +245,18 @@ example :
       [.put 1 10, .put 2 20, .put 3 30, .add 2 5, .remove 1, .get 2, .size, .entries]).2
       = [.none, .none, .none, .val 20, .val 10, .val 25, .nat 2, .ents [(3, 30), (2, 25)]] := by decide
 
+/-- the plain enumerator object (index, entry) with its skip loop, drained on a table with empty buckets in between -/
+example :
+    let d : PDesc Int Int := { comb := fun a b => a + b, veq := fun a b => a == b }
+    let m := (PMap.run (fun k : Int => k.toNat) (fun c => c) d (PMap.new (fun c => c) 7) [.put 1 10, .put 5 50, .put 8 80]).1
+    PEnum.drain m.tab m.count m.tab.openEnum = [(5, 50), (8, 80), (1, 10)] ∧ m.tab.entries = [(5, 50), (8, 80), (1, 10)] ∧
+    PEnum.hasMore m.tab ⟨0, []⟩ = false := by
+  decide
+
+/-- `add_result_exact` on the three kinds of key: fresh with the deviation, present, refused -/
+example :
+    let d : PDesc String Int := { comb := fun a b => a + b, veq := fun a b => a == b, refuse := fun k => k == "r", addFreshNew := true }
+    (PS.add d {} "a" 7).2 = some 7 ∧ (PS.add d (PS.add d {} "a" 7).1 "a" 1).2 = some 7 ∧ (PS.add d {} "r" 7).2 = none := by
+  decide
+
 end C12
